@@ -1,0 +1,7 @@
+//go:build !verif
+
+package sniproxy
+
+// verifPoint marks a schedule point for the verification harness; it does
+// nothing unless the package is built with the "verif" tag.
+func verifPoint(point, name string, ep *endpointClient) {}
